@@ -2340,6 +2340,23 @@ def translate() -> tuple[str, dict]:
               'Definition output_short_rows : list srow := [',
               ';\n'.join('  ("%s", %s, [%s], %s)' % (f, ty, '; '.join(ts), dv) for f, ty, ts, dv in ps['short_rows']),
               '].']
+    # round 5: `__copy__` / `__deepcopy__` hooks on map-object classes (copy.copy(x) is an alternative entry point): a hook must
+    # be a plain delegation `return self.copy()`; EntityFixup's hooks are census labels of their own
+    hooks: list[tuple[str, str, bool]] = []
+    for cname in VMF_CLASSES:
+        if cname == 'EntityFixup':
+            continue
+        for n in classes[cname].node.body:
+            if isinstance(n, ast.FunctionDef) and n.name in ('__copy__', '__deepcopy__'):
+                body = [st for st in n.body if not (isinstance(st, ast.Expr) and isinstance(st.value, ast.Constant))]
+                ok = len(body) == 1 and isinstance(body[0], ast.Return) and body[0].value is not None \
+                    and ast.unparse(body[0].value) == 'self.copy()' and not n.decorator_list \
+                    and any(isinstance(m, ast.FunctionDef) and m.name == 'copy' for m in classes[cname].node.body)
+                hooks.append((cname, n.name, ok))
+    side['copy_hooks'] = [list(h) for h in hooks]
+    lines.append('Definition copy_hooks : list (string * bool) := [')
+    lines.append(';\n'.join(f'  ("{c}.{m}", {"true" if ok else "false"})' for c, m, ok in hooks))
+    lines.append('].')
     lines.append('Definition cond_rows : list (string * string * how * how) := [')
     lines.append(';\n'.join(f'  ("{c.label}", "{f}", {a}, {b})' for c in censuses for f, (a, b) in sorted(c.cond_parts.items())))
     lines.append('].')
